@@ -50,6 +50,11 @@ public:
 
 struct AttrHandler : public HandlerBase {
     Rec* rec = 0;
+    const std::string* ext = 0;     // if set: the text served for every external entity (the external DTD subset)
+    InputSource* resolveEntity(const XMLCh* const, const XMLCh* const systemId) override {
+        if (!ext) return 0;
+        return new MemBufInputSource((const XMLByte*)ext->data(), ext->size(), systemId, false);
+    }
     // one entry per element in document order: its attributes as delivered, sorted, "name=value" (space -> '+')
     void startElement(const XMLCh* const, AttributeList& a) override {
         if (!rec) return;
@@ -114,15 +119,17 @@ static void mixedLeaves(const ContentSpecNode* n, std::vector<std::string>& out,
 
 static std::string runOne(const XMLCh* scanner, const std::string& doc, Rec& rec, bool wantTree,
                           const std::vector<int>& kids, std::string& tree, std::string& verdict,
-                          bool validate = true) {
+                          bool validate = true, const std::string* ext = 0) {
     CodeParser p;
     AttrHandler ah;
     ah.rec = &rec;
+    ah.ext = ext;
     p.rec = &rec;
     p.useScanner(scanner);
     p.setValidationScheme(validate ? SAXParser::Val_Always : SAXParser::Val_Never);
     p.setDoNamespaces(false);
     p.setDocumentHandler(&ah);
+    if (ext) p.setEntityResolver(&ah);
     p.setErrorHandler(&ah);   // installs the parser as the scanner's XMLErrorReporter (our override records codes)
     try {
         MemBufInputSource src((const XMLByte*)doc.data(), doc.size(), "mem", false);
@@ -216,18 +223,21 @@ static std::string doCm(const std::vector<std::string>& a) {
     return "t=" + tree + " v=" + verdict + " e=" + e;
 }
 
-// doc <v|n> <hex of the UTF-8 document>: parse under both scanners with validation always (v) or never (n);
+// doc <v|n> <hex of the UTF-8 document> [<hex of the external DTD subset>]: parse under both scanners with validation always (v) or never (n);
 // answer: e=<codes> a=<attributes of the root element as delivered: name=value:type>
 static std::string doDoc(const std::vector<std::string>& a) {
     std::vector<uint32_t> b = parseHex(a[2], 2);
     std::string doc;
     for (uint32_t c : b) doc += (char)c;
     bool validate = a[1] == "v";
+    std::string ext;
+    if (a.size() == 4) { std::vector<uint32_t> eb = parseHex(a[3], 2); for (uint32_t c : eb) ext += (char)c; }
+    const std::string* extp = a.size() == 4 ? &ext : 0;
     Rec ig, dgr;
     std::string t, v;
     std::vector<int> none;
-    std::string x1 = runOne(XMLUni::fgIGXMLScanner, doc, ig, false, none, t, v, validate);
-    std::string x2 = runOne(XMLUni::fgDGXMLScanner, doc, dgr, false, none, t, v, validate);
+    std::string x1 = runOne(XMLUni::fgIGXMLScanner, doc, ig, false, none, t, v, validate, extp);
+    std::string x2 = runOne(XMLUni::fgDGXMLScanner, doc, dgr, false, none, t, v, validate, extp);
     std::string e;
     if (!x1.empty() || !x2.empty()) e = "IG:" + x1 + "/" + join(ig.codes) + ";DG:" + x2 + "/" + join(dgr.codes);
     else if (ig.codes != dgr.codes || ig.attrs != dgr.attrs)
@@ -278,7 +288,7 @@ int main() {
         std::string r = "bad-request";
         try {
             if (a.size() == 7 && a[0] == "cm") r = doCm(a);
-            else if (a.size() == 3 && a[0] == "doc") r = doDoc(a);
+            else if ((a.size() == 3 || a.size() == 4) && a[0] == "doc") r = doDoc(a);
             else if (a.size() == 7 && a[0] == "attr") r = doAttr(a);
         } catch (...) {
             r = "harness-exception";
